@@ -405,6 +405,28 @@ pub fn run(args: &Args) -> i32 {
                 process(format!("r{i}big"), &doc, None, &mut w, &mut stats, &[style]);
                 continue;
             }
+            if focus04 && i % 10 == 3 {
+                // a wide mapping (6..40 distinct keys) in which one or two keys come again, preferably at a position next to a
+                // power of two or a small-capacity boundary (key sets that change representation as they grow)
+                let span = if rng.chance(1, 4) { 35 } else { 14 };
+                let width = 6 + rng.below(span);
+                let mut lab = Lab(0);
+                let mut entries: Vec<(Node, Node)> = (0..width).map(|j| (sc(&format!("k{j}"), if j % 5 == 4 { "d" } else { "p" }), lab.next())).collect();
+                for _ in 0..1 + rng.below(2) {
+                    let near: Vec<usize> = [3usize, 4, 7, 8, 9, 15, 16, 17, 31, 32, 33].iter().copied().filter(|&x| x < width).collect();
+                    let which = if !near.is_empty() && rng.chance(2, 3) { *rng.pick(&near) } else { rng.below(width) };
+                    let again = (sc(&format!("k{which}"), if rng.chance(1, 4) { "s" } else { "p" }), lab.next());
+                    let room = entries.len() - which;
+                    let at = which + 1 + rng.below(room);
+                    entries.insert(at, again);
+                }
+                let node = Node::Map { a: 0, t: String::new(), entries };
+                let mut doc = vec![];
+                events_from_node(&node, &mut doc);
+                let style = if rng.chance(1, 2) { "f" } else { "b" };
+                process(format!("r{i}wide"), &doc, None, &mut w, &mut stats, &[style]);
+                continue;
+            }
             if i % 2 == 0 {
                 // structural generators aimed at the property's own quantifier
                 let mut lab = Lab(0);
